@@ -2,4 +2,7 @@
 EXTENDS Ffi, Json
 \* at the end of a behaviour the harness releases everything still owned (Quiesce), in id order
 Emit == ncalls = MaxCalls => PrintT(<<"REPLAY", ToJson([calls |-> hist, left |-> {[id |-> o.id, ty |-> o.ty] : o \in live}])>>)
+\* focused runs: one action carrying filters, one filter object
+OneFilter == /\ \A o \in Of("action") : o.k = "filters"
+             /\ Cardinality(Of("action")) <= 1 /\ Cardinality(Of("filter")) <= 1
 =============================================================================
